@@ -459,6 +459,8 @@ def run(ctx):
             if U.attr_name(c) in STARTERS and isinstance(c.func, ast.Attribute) and 'session' in norm_text(c.func.value).lower():
                 if f.qual in allowed:
                     ck.ok('C02-D4', f.qual, '%s: %s' % (norm_text(c)[:60], allowed[f.qual]))
+                    if f.qual.endswith('RobotsTxtChecker.fetch_robots_txt'):
+                        _robots_hops(ctx, f, c)
                 elif f.qual == FTP + '._fetch_parent_path':
                     # the request listed is the parent directory of the item, not the item the verdict was computed for
                     ck.bad('C02-D4', f.qual, 'start_listing(parent directory) without a filter verdict',
@@ -655,3 +657,31 @@ def _same_call(repo, call, ref_src):
             out[k.arg] = norm_text(k.value)
         return out
     return bind(call) == bind(ref)
+
+
+def _robots_hops(ctx, f, start_call):
+    """The exception made for robots.txt covers the control file of the origin being visited.  The request is made through a web
+    session, which follows redirects: when the start sits in a loop over `session.done()`, every later iteration requests whatever
+    the redirect names.  Necessary for any restriction of those hops: between the loop head and the start the code looks at the next
+    request (next_request() / the redirect tracker) or asks for a verdict."""
+    ck = ctx.check
+    cfg = ctx.cfg(f)
+    loops = [n for n in cfg.nodes if n.kind == 'while' and any(U.attr_name(c) == 'done' for c in U.calls(n.stmt.test))]
+    starts = [n for n in cfg.stmt_nodes() if any(c is start_call for c in F.node_calls(n))]
+    if not starts:
+        raise AnalysisError('fetch_robots_txt: start call not found in the flow graph')
+    inside = [lp for lp in loops if any(x is starts[0].stmt or any(y is starts[0].stmt for y in ast.walk(x)) for x in lp.stmt.body)]
+    if not inside:
+        ck.ok('C02-D4', f.qual, 'robots.txt request is made once (no redirect loop)')
+        return
+
+    def looks(n):
+        for c in F.node_calls(n):
+            an = U.attr_name(c)
+            if an in ('next_request', 'is_redirect', 'next_location', 'consult_filters', 'test', 'test_info'):
+                return True
+        return any(isinstance(y, ast.Attribute) and y.attr == 'redirect_tracker' for y in walk_no_nested(n.stmt)) if n.stmt is not None else False
+    p = cfg.find_path(inside[0], lambda x: x is starts[0], edge_ok=F.normal, stop=looks)
+    ck.expect(p is None, 'C02-D4', f.qual, 'redirect hops of the robots.txt request are inspected before they are requested',
+              'the robots.txt request follows redirects to any host and path (the loop restarts the session without looking at the next '
+              'request): a URL that is neither the control file of the origin nor accepted by the filters is requested', f.loc(start_call))
